@@ -504,6 +504,51 @@ static void prog_adopt(int nworkers) {
   do_collect(1);
 }
 
+/* ---- program "exit-heap" (C09 x C10): threads exit with live blocks; the main thread then works with a first-class heap of its own
+   -- fresh-segment requests (each visits the abandoned segments), allocations in the size classes left behind, with reclaim on free
+   also frees of foreign blocks while that heap is the default -- and destroys (or deletes) it: the blocks of the exited threads are
+   not blocks of that heap, they must survive with their contents and must not be attributed to it. */
+static void prog_exit_heap(int nthreads) {
+  max_fill = 8192;
+  static const size_t szs[] = {64, 64, 200, 1000, 5000, 20000};
+  for (int i = 0; i < 20; i++) op_alloc_ex(A_malloc, szs[vf_randn(6)], 0, 0, 0, 0);      /* the main thread has segments of its own */
+  heap_new_op(); int hi = 1; while (hi < MAXHEAPS && !hps[hi].alive) hi++;
+  if (hi >= MAXHEAPS) return;
+  op_alloc_ex(A_heap_malloc, 100, 0, 0, hi, 0);
+  for (int k = 0; k < nthreads; k++) { role_t* r = &roles[k + 1]; memset(r, 0, sizeof(*r)); r->t = k + 1; r->heapid = next_heap_id++; r->collect = 0; vf_spawn(adopt_worker, r); }
+  vf_sched_go();
+  vf_wait_all();
+  op_checkall();
+  int as_default = (int)vf_randn(2);
+  if (as_default) heap_set_default_op(hi);
+  int big[12], nbig = 0;
+  int nfresh = 6 + (int)vf_randn(6);
+  for (int i = 0; i < nfresh; i++) {
+    int s = op_alloc_ex(A_heap_malloc, (12u << 20) + vf_randn(4096), 0, 0, hi, 0);
+    if (s >= 0 && nbig < 12) big[nbig++] = s;
+    if (vf_randn(3) == 0) { int f = pick_live(); if (f >= 0 && slots[f].heap != hps[hi].id) op_free_slot(f, FR_free); }     /* (reclaim on free: into the default heap) */
+  }
+  for (size_t k = 0; k < sizeof(adopt_sizes) / sizeof(size_t); k++)
+    for (int i = 0; i < (adopt_sizes[k] <= 1000 ? 30 : 5); i++) op_alloc_ex(A_heap_malloc, adopt_sizes[k], 0, 0, hi, 0);
+  /* whose blocks are they? */
+  for (int q = 0; q < 12; q++) {
+    int s = pick_live(); if (s < 0) break;
+    ret_t r; memset(&r, 0, sizeof(r)); slots[s].pin++;
+    log_call_begin("heap_contains_block", hps[hi].id, slots[s].id, 0, 0, 0, 0, "ok", 0, 0); log_obs(-1, -1, 0); log_call_end();
+    r.res = mi_heap_contains_block(hps[hi].hp, slots[s].p); vf_in_call = 0; slots[s].pin--;
+    log_ret_begin("heap_contains_block", &r); log_obs(-1, -1, 0); log_ret_end();
+  }
+  op_checkall();
+  if (vf_randn(3) != 0) heap_destroy_op(hi); else heap_delete_op(hi);
+  op_checkall();
+  vf_clock_advance(500); do_collect(1);       /* whatever the destroy released is purged now */
+  op_checkall();
+  for (int i = 0; i < 200; i++) op_alloc_ex(A_malloc, adopt_sizes[vf_randn(4)], 0, 0, 0, 0);     /* memory released by the destroy is re-used */
+  op_checkall();
+  for (int s = 0; s < MAXSLOTS; s++) if (slots[s].p) op_free_slot(s, FR_free);
+  do_collect(1);
+}
+
 /* ---- program "abvisit" (C12, second half): threads leave blocks behind; mi_abandoned_visit_blocks must report exactly them,
    a visitor returning false stops the walk, and a later walk is complete again (needs MIMALLOC_VISIT_ABANDONED=1) */
 static void visit_abandoned(int stopat) {
@@ -582,6 +627,7 @@ static int run_one(const char* out, const char* prog, uint64_t seed, int argc, c
   else if (!strcmp(prog, "page-collect")) prog_page(nremote, 12, 2, 1);
   else if (!strcmp(prog, "pc")) prog_pc(1 + (int)vf_randn(2), 2400, blk_lo, blk_hi);
   else if (!strcmp(prog, "abvisit")) prog_abvisit(2 + (int)vf_randn(3));
+  else if (!strcmp(prog, "exit-heap")) prog_exit_heap(1 + (int)vf_randn(3));
   else if (!strcmp(prog, "adopt")) prog_adopt(2 + (int)vf_randn(3));
   else if (!strcmp(prog, "arena")) prog_arena(2 + (int)vf_randn(2));
   else if (!strcmp(prog, "exit-aligned")) { exit_aligned = 1; prog_exit(2 + (int)vf_randn(2), 14 + (int)vf_randn(10), 100, 400); }
